@@ -446,7 +446,7 @@ func init() {
 	Register(Spec[[]c29Op]{
 		ID: "C29", Suite: "hist", CoqImports: []string{"Common.BytesUtil", "Check.C29"},
 		CoqType: "list byte", CoqRun: "Check.C29.run",
-		Quick: 500, Thorough: 40000, Parallel: 8,
+		Quick: 500, Thorough: 5000, Parallel: 8,
 		Corpus: func() [][]c29Op {
 			return [][]c29Op{
 				// three bindings, unbind the first (swap-delete moves the last into slot 0), write, unbind the middle one
